@@ -470,6 +470,14 @@ func selection(c *mon.Ctx) {
 				pad := []int{0, 10, 200, 1500, 5000}[r.Intn(5)]
 				fee := uint64(1 + r.Intn(8))
 				fee *= uint64([]int{1, 1000, 100000, 10000000}[r.Intn(4)])
+				if r.Intn(12) == 0 {
+					// fees at the top of the uint64 range (2^56 .. 2^64-1): any arithmetic on them
+					// beyond fee/size must not wrap
+					fee = uint64(1)<<uint(56+r.Intn(8)) + uint64(r.Int63n(1<<40))
+					if r.Intn(3) == 0 {
+						fee = ^uint64(0) - uint64(r.Intn(1000))
+					}
+				}
 				tx := n.NewTx(v, base+uint64(i), fee, ver, ex, pad)
 				p := &ptx{tx: tx, prio: tx.Fee / uint64(tx.Size()), ok: ver == node.TxVerifyOK && (ex == node.TxExecOK || ex == node.TxExecFail)}
 				bySender[string(tx.SenderAddress())] = append(bySender[string(tx.SenderAddress())], p)
